@@ -119,7 +119,7 @@ DepthFrom(X, c, d) ==
          IF id = 0 THEN d[i] ELSE 1 + MaxOf({d[j + 1] : j \in Range(X.ops[id].loc) \cap (0..X.nq - 1)} \cup {d[i]})]))
 Depth(X) == MaxOf(Range(DepthFrom(X, 1, [i \in 1..X.nq |-> 0])) \cup {0})
 \* gate table: one entry per distinct gate (identity, kind, width, contents) with its multiplicity
-GateDesc(o) == [tag |-> o.tag, kind |-> o.kind, w |-> Len(o.loc), rad |-> o.rad, flat |-> FlatAll(o)]
+GateDesc(o) == [tag |-> o.tag, kind |-> o.kind, w |-> Len(o.loc), rad |-> o.rad, body |-> o.body]
 GateCounts(X) == LET os == FwdOps(X)  ds == TLCEval([k \in 1..Len(os) |-> GateDesc(os[k])]) IN
                  {[g |-> ds[k], n |-> Cardinality({j \in 1..Len(os) : ds[j] = ds[k]})] : k \in 1..Len(os)}
 
